@@ -22,8 +22,8 @@ def main():
         here = os.path.dirname(os.path.dirname(os.path.abspath(__file__)))
         env = dict(os.environ, PYVC_NO_EVIDENCE="1")
         r = subprocess.run([os.path.join(here, "check"), pid, "--repo", tmp] + extra, capture_output=True, text=True, env=env)
-        lines = [l for l in r.stdout.splitlines() if l.startswith(("VIOLATION", "  obligation", "  bounded", "UNDECIDED", "CHECKER", "KNOWN", "["))]
-        print("\n".join(lines[:12]))
+        lines = [l for l in r.stdout.splitlines() if l.startswith(("VIOLATION", "  obligation", "  bounded", "UNDECIDED", "CHECKER", "KNOWN", "[", "    ob"))]
+        print("\n".join(lines[:40]))
         if r.returncode not in (0, 1):
             print(r.stdout[-1500:], r.stderr[-1500:])
         print("exit", r.returncode)
